@@ -571,3 +571,31 @@ func initReflect(i *interpreter) {
 		"Error": newMethod(i.reflectPackage, errorType, "Error"),
 	}
 }
+
+func ext۰reflect۰MakeSlice(fr *frame, args []value) value {
+	// Signature: func (typ reflect.Type, len, cap int) reflect.Value
+	t := args[0].(iface).v.(rtype).t
+	n := int(asInt64(args[1]))
+	c := int(asInt64(args[2]))
+	elem := t.Underlying().(*types.Slice).Elem()
+	s := make([]value, n, c)
+	for k := range s {
+		s[k] = zero(elem)
+	}
+	return makeReflectValue(t, s)
+}
+
+func ext۰reflect۰Append(fr *frame, args []value) value {
+	// Signature: func (s reflect.Value, x ...reflect.Value) reflect.Value
+	t := rV2T(args[0]).t
+	s, _ := rV2V(args[0]).([]value)
+	for _, x := range args[1].([]value) {
+		s = append(s, rV2V(x))
+	}
+	return makeReflectValue(t, s)
+}
+
+func init() {
+	externals["reflect.MakeSlice"] = ext۰reflect۰MakeSlice
+	externals["reflect.Append"] = ext۰reflect۰Append
+}
